@@ -27,7 +27,12 @@ func (p *Prog) renderEntries() []*ssa.Function {
 	var out []*ssa.Function
 	for _, fn := range p.Funcs {
 		pk := funcPkg(fn)
-		if pk == nil || pk.Path() != modPath || fn.Parent() != nil {
+		if pk == nil || fn.Parent() != nil {
+			continue
+		}
+		// the engine's own render surface (the properties speak of the Template / Vue render methods; the Markdown
+		// renderer streams node by node by design and is not covered by the all-or-nothing claim)
+		if pk.Path() != modPath {
 			continue
 		}
 		if !token.IsExported(fn.Name()) {
